@@ -140,3 +140,547 @@ Proof.
         -- split; intro Hx; [congruence|]. rewrite Ed in Hx. discriminate.
         -- apply IH. exact Hin.
 Qed.
+
+(* ------------------------------------------------------------------ literals and arguments *)
+
+Section Args.
+  Variable s : schema.
+  Variable vdefs : list var_def.
+  Variable cv : list (str * value).
+  Hypothesis Hcv : cv_ok vdefs cv.
+  Let nulls := nulls_of vdefs cv.
+
+  Lemma null_var_in_nulls vd :
+    In vd vdefs -> is_nonnull (v_type vd) = false -> lookup (v_name vd) cv = Some VNull ->
+    mem (v_name vd) nulls = true.
+  Proof.
+    intros Hin Ht Hl. apply mem_In. unfold nulls, nulls_of. apply in_flat_map.
+    exists vd. split; [exact Hin|]. rewrite Ht, Hl. left. reflexivity.
+  Qed.
+
+  (* a variable allowed at a location has a usable value there, or has no value at all where the
+     location can do without *)
+  Lemma var_usage x vd t dflt :
+    find_var x vdefs = Some vd ->
+    allowed_usage (v_type vd) (v_default vd) t dflt && negb (is_nonnull t && mem x nulls) = true ->
+    match lookup x cv with
+    | None => is_nonnull t = false \/ dflt = true
+    | Some c => is_nonnull t = true -> c <> VNull
+    end.
+  Proof.
+    intros Hf Ha. apply find_var_In in Hf. destruct Hf as [Hin <-].
+    apply andb_true_iff in Ha. destruct Ha as [Ha Hnl].
+    destruct (Hcv vd Hin) as [P1 P2].
+    destruct t as [n|it|lt]; cbn [is_nonnull].
+    1,2: destruct (lookup (v_name vd) cv); [discriminate | left; reflexivity].
+    cbn [allowed_usage] in Ha.
+    destruct (is_nonnull (v_type vd)) eqn:En.
+    - destruct (P1 eq_refl) as [c [-> Hc]]. intros _. exact Hc.
+    - apply andb_true_iff in Ha. destruct Ha as [Ha _].
+      destruct (lookup (v_name vd) cv) as [c|] eqn:El.
+      + intros _ ->. rewrite (null_var_in_nulls vd Hin En El) in Hnl. discriminate.
+      + apply orb_true_iff in Ha. destruct Ha as [Ha|Ha]; [|right; exact Ha].
+        destruct (P2 Ha) as [c Hc]. congruence.
+  Qed.
+
+  Lemma lit_sound : forall v t dflt,
+    lit_ok s vdefs nulls v t dflt = true ->
+    (exists c, coerce_lit s cv v t = Some c) \/
+    (exists x, v = VVar x /\ lookup x cv = None /\ (is_nonnull t = false \/ dflt = true)).
+  Proof.
+    induction v as [ | z | n d | x | b | x | x | l IHl] using value_ind'; intros t dflt H; cbn [lit_ok] in H;
+      try (left; cbn [coerce_lit];
+           match type of H with match ?c with Some _ => _ | None => _ end = _ =>
+             destruct c as [c0|]; [exists c0; reflexivity | discriminate] end).
+    - (* null *)
+      left. cbn. apply negb_true_iff in H. rewrite H. eexists; reflexivity.
+    - (* variable *)
+      destruct (find_var x vdefs) as [vd|] eqn:Ef; [|discriminate].
+      pose proof (var_usage x vd t dflt Ef H) as Hu. cbn [coerce_lit].
+      destruct (lookup x cv) as [c|] eqn:El.
+      + left. destruct c; try (eexists; reflexivity).
+        destruct (is_nonnull t) eqn:En; [exfalso; apply (Hu eq_refl); reflexivity | eexists; reflexivity].
+      + right. exists x. split; [reflexivity | split; [first [reflexivity | exact El] | exact Hu]].
+    - (* list *)
+      left. cbn [coerce_lit]. destruct (list_item_type t) as [it|]; [|discriminate].
+      match goal with |- exists c, option_map VList ?g = Some c =>
+        assert (Hg : exists r, g = Some r); [|destruct Hg as [r ->]; eexists; reflexivity] end.
+      induction l as [|y r IHr].
+      + eexists; reflexivity.
+      + inversion IHl as [|? ? Hy Hr]; subst. apply andb_true_iff in H. destruct H as [H1 H2].
+        destruct (IHr Hr H2) as [cr ->].
+        destruct (Hy it false H1) as [[c ->]|[z [-> [Hz [Hi|Hi]]]]].
+        * eexists; reflexivity.
+        * cbn [coerce_lit]. rewrite Hz, Hi. eexists; reflexivity.
+        * discriminate.
+  Qed.
+
+  Lemma args_sound defs args :
+    (forall ad lit, In ad defs -> a_default ad = Some lit -> coerce_lit s [] lit (a_type ad) <> None) ->
+    forallb (fun ad =>
+       match lookup (a_name ad) args with
+       | None => negb (required_arg ad)
+       | Some v => lit_ok s vdefs nulls v (a_type ad) (match a_default ad with Some _ => true | None => false end)
+       end) defs = true ->
+    exists r, coerce_args s cv defs args = Some r.
+  Proof.
+    induction defs as [|ad rest IH]; intros Hd H.
+    - eexists; reflexivity.
+    - cbn [forallb] in H. apply andb_true_iff in H. destruct H as [H1 H2].
+      destruct (IH (fun ad' lit Hin => Hd ad' lit (or_intror Hin)) H2) as [cr Hcr].
+      cbn [coerce_args]. rewrite Hcr.
+      assert (Hdef : exists o, match a_default ad with
+                               | Some lit => option_map Some (coerce_lit s [] lit (a_type ad))
+                               | None => Some None
+                               end = Some o).
+      { destruct (a_default ad) as [lit|] eqn:Ed; [|eexists; reflexivity].
+        destruct (coerce_lit s [] lit (a_type ad)) eqn:Ec; [eexists; reflexivity|].
+        exfalso. eapply Hd; [left; reflexivity | exact Ed | exact Ec]. }
+      destruct Hdef as [o Ho]. rewrite Ho.
+      destruct (lookup (a_name ad) args) as [v|] eqn:El.
+      + destruct (lit_sound v (a_type ad) _ H1) as [[c Hc]|[x [-> [Hx Hor]]]].
+        * destruct (match v with VVar x => _ | _ => false end && negb (required_arg ad)).
+          -- destruct o; eexists; reflexivity.
+          -- rewrite Hc. eexists; reflexivity.
+        * rewrite Hx. cbn [andb].
+          assert (Hr : required_arg ad = false).
+          { unfold required_arg. destruct Hor as [Hi|Hi]; [rewrite Hi; reflexivity|].
+            destruct (a_default ad); [apply andb_false_r | discriminate]. }
+          rewrite Hr. cbn. destruct o; eexists; reflexivity.
+      + apply negb_true_iff in H1. rewrite H1. destruct o; eexists; reflexivity.
+  Qed.
+End Args.
+
+(* ------------------------------------------------------------------ reachable fields *)
+
+Section Reach.
+  Variable s : schema.
+  Variable frags : list fragment.
+  Variable rt : str.
+
+  Lemma reach_incl sels sels' k f :
+    (forall x, In x sels' -> In x sels) -> reach s frags rt sels' k f -> reach s frags rt sels k f.
+  Proof.
+    intros Hi H. destruct H.
+    - eapply r_field. apply Hi. eassumption.
+    - eapply r_inline; [apply Hi; eassumption | assumption | assumption].
+    - eapply r_spread; [apply Hi; eassumption | eassumption | assumption | assumption].
+  Qed.
+
+  Lemma reach_merged_inv fs k f :
+    reach s frags rt (merged_sels fs) k f -> exists f0, In f0 fs /\ reach s frags rt (fs_sels f0) k f.
+  Proof.
+    unfold merged_sels. intro H.
+    inversion H as [sels al name args dirs sub Hin
+                   | sels tc dirs sub k0 f1 Hin Hc Hr
+                   | sels name dirs fr k0 f1 Hin Hf Hc Hr]; subst.
+    - apply in_flat_map in Hin. destruct Hin as [f0 [H0 H1]]. exists f0. split; [exact H0|].
+      eapply r_field. exact H1.
+    - apply in_flat_map in Hin. destruct Hin as [f0 [H0 H1]]. exists f0. split; [exact H0|].
+      eapply r_inline; eassumption.
+    - apply in_flat_map in Hin. destruct Hin as [f0 [H0 H1]]. exists f0. split; [exact H0|].
+      eapply r_spread; eassumption.
+  Qed.
+
+  Lemma reach_merged fs f0 k f :
+    In f0 fs -> reach s frags rt (fs_sels f0) k f -> reach s frags rt (merged_sels fs) k f.
+  Proof.
+    intros Hin. apply reach_incl. intros x Hx. unfold merged_sels. apply in_flat_map.
+    exists f0. split; assumption.
+  Qed.
+End Reach.
+
+Lemma set_typed_mono s frags vdefs nulls rt sels sels' :
+  (forall k f, reach s frags rt sels' k f -> reach s frags rt sels k f) ->
+  set_typed s frags vdefs nulls rt sels -> set_typed s frags vdefs nulls rt sels'.
+Proof.
+  intros Hi H. inversion H as [rt0 sels0 H1 H2 H3]; subst. constructor.
+  - intros k f Hr. eapply H1. apply Hi. exact Hr.
+  - intros k f1 f2 Hr1 Hr2. eapply H2; apply Hi; eassumption.
+  - intros k fs f1 fd rt' Hall Hin Hl Hrt. eapply H3; try eassumption.
+    intros f Hf. apply Hi. apply Hall. exact Hf.
+Qed.
+
+(* ------------------------------------------------------------------ groups *)
+
+Definition in_group (g : grouped) (k : str) (f : fieldsel) : Prop :=
+  exists fs, In (k, fs) g /\ In f fs.
+
+Lemma add_field_in_group k f g k' f' :
+  in_group (add_field k f g) k' f' <-> in_group g k' f' \/ (k' = k /\ f' = f).
+Proof.
+  induction g as [|[k0 fs0] r IH]; cbn [add_field].
+  - split.
+    + intros [fs [[Heq|[]] Hin]]. inversion Heq; subst. destruct Hin as [<-|[]]. right. split; reflexivity.
+    + intros [[fs [[] _]]|[-> ->]]. exists [f]. split; left; reflexivity.
+  - destruct (str_eqb k k0) eqn:E.
+    + apply str_eqb_eq in E. subst k0. split.
+      * intros [fs [[Heq|Hin0] Hin]].
+        -- inversion Heq; subst. apply in_app_iff in Hin. destruct Hin as [Hin|[<-|[]]].
+           ++ left. exists fs0. split; [left; reflexivity | exact Hin].
+           ++ right. split; reflexivity.
+        -- left. exists fs. split; [right; exact Hin0 | exact Hin].
+      * intros [[fs [[Heq|Hin0] Hin]]|[-> ->]].
+        -- inversion Heq; subst. exists (fs ++ [f]). split; [left; reflexivity|].
+           apply in_app_iff. left. exact Hin.
+        -- exists fs. split; [right; exact Hin0 | exact Hin].
+        -- exists (fs0 ++ [f]). split; [left; reflexivity|]. apply in_app_iff. right. left. reflexivity.
+    + split.
+      * intros [fs [[Heq|Hin0] Hin]].
+        -- inversion Heq; subst. left. exists fs. split; [left; reflexivity | exact Hin].
+        -- assert (Hg : in_group (add_field k f r) k' f') by (exists fs; split; assumption).
+           apply IH in Hg. destruct Hg as [[fs' [H1 H2]]|Hg]; [|right; exact Hg].
+           left. exists fs'. split; [right; exact H1 | exact H2].
+      * intros [[fs [[Heq|Hin0] Hin]]|Hg].
+        -- inversion Heq; subst. exists fs. split; [left; reflexivity | exact Hin].
+        -- assert (Hg : in_group (add_field k f r) k' f') by (apply IH; left; exists fs; split; assumption).
+           destruct Hg as [fs' [H1 H2]]. exists fs'. split; [right; exact H1 | exact H2].
+        -- assert (Hg' : in_group (add_field k f r) k' f') by (apply IH; right; exact Hg).
+           destruct Hg' as [fs' [H1 H2]]. exists fs'. split; [right; exact H1 | exact H2].
+Qed.
+
+Lemma group_in_gen fl : forall g k f,
+  in_group (fold_left (fun g kf => add_field (fst kf) (snd kf) g) fl g) k f <->
+  in_group g k f \/ In (k, f) fl.
+Proof.
+  induction fl as [|[k0 f0] r IH]; intros g k f; cbn [fold_left fst snd].
+  - split; [intro H; left; exact H | intros [H|[]]; exact H].
+  - rewrite IH. rewrite add_field_in_group. split.
+    + intros [[H|[-> ->]]|H]; [left; exact H | right; left; reflexivity | right; right; exact H].
+    + intros [H|[Heq|H]]; [left; left; exact H | inversion Heq; subst; left; right; split; reflexivity
+                           | right; exact H].
+Qed.
+
+Lemma group_in fl k f : in_group (group fl) k f <-> In (k, f) fl.
+Proof.
+  unfold group. rewrite group_in_gen. split; [intros [[fs [[] _]]|H]; exact H | intro H; right; exact H].
+Qed.
+
+Lemma nodup_keys_unique (g : grouped) k fs1 fs2 :
+  NoDup (keys g) -> In (k, fs1) g -> In (k, fs2) g -> fs1 = fs2.
+Proof.
+  induction g as [|[k0 fs0] r IH]; intros Hn H1 H2; [destruct H1|].
+  cbn [keys map fst] in Hn. inversion Hn as [|? ? Hnot Hn']; subst.
+  destruct H1 as [E1|H1], H2 as [E2|H2].
+  - congruence.
+  - inversion E1; subst. exfalso. apply Hnot. change (In k (keys r)). apply in_map_iff.
+    exists (k, fs2). split; [reflexivity | exact H2].
+  - inversion E2; subst. exfalso. apply Hnot. apply in_map_iff.
+    exists (k, fs1). split; [reflexivity | exact H1].
+  - apply IH; assumption.
+Qed.
+
+Lemma group_nodup fl : NoDup (keys (group fl)).
+Proof.
+  unfold group. assert (H : forall g, NoDup (keys g) ->
+    NoDup (keys (fold_left (fun g kf => add_field (fst kf) (snd kf) g) fl g))).
+  { induction fl as [|[k f] r IH]; intros g Hg; cbn [fold_left]; [exact Hg|].
+    apply IH. apply add_field_nodup. exact Hg. }
+  apply H. constructor.
+Qed.
+
+(* ------------------------------------------------------------------ CollectFields collects reachable fields *)
+
+Section CollectReach.
+  Variable s : schema.
+  Variable frags : list fragment.
+  Variable cv : list (str * value).
+  Variable rt : str.
+  Variable top : list selection.
+
+  Definition greach (g : grouped) : Prop := forall k f, in_group g k f -> reach s frags rt top k f.
+
+  Definition sub_reach (cur : list selection) : Prop :=
+    forall k f, reach s frags rt cur k f -> reach s frags rt top k f.
+
+  Lemma sub_reach_tail x rest : sub_reach (x :: rest) -> sub_reach rest.
+  Proof. intros H k f Hr. apply H. eapply reach_incl; [|exact Hr]. intros y Hy. right. exact Hy. Qed.
+
+  Lemma collect_list_reach rec :
+    (forall cur v g v' g', sub_reach cur -> greach g -> rec cur (v, g) = Some (v', g') -> greach g') ->
+    forall cur v g v' g', sub_reach cur -> greach g ->
+      collect_list s frags cv rt grouped add_field rec cur (v, g) = Some (v', g') -> greach g'.
+  Proof.
+    intros Hrec. induction cur as [|x rest IH]; intros v g v' g' Hsub Hg H.
+    - cbn in H. inversion H; subst. exact Hg.
+    - pose proof (sub_reach_tail _ _ Hsub) as Hsub'.
+      destruct x as [al name args dirs sub | name dirs | tc dirs sub]; cbn [collect_list fst snd] in H.
+      + destruct (should_include cv dirs); [|eapply IH; eassumption].
+        eapply IH; [exact Hsub' | | exact H].
+        intros k f Hin. apply add_field_in_group in Hin. destruct Hin as [Hin|[-> ->]]; [apply Hg; exact Hin|].
+        apply Hsub. eapply r_field. left. reflexivity.
+      + destruct (negb (should_include cv dirs)); [eapply IH; eassumption|].
+        destruct (mem name v); [eapply IH; eassumption|].
+        destruct (find_frag name frags) as [fr|] eqn:Ef; [|eapply IH; eassumption].
+        destruct (cond_matches s (fr_cond fr) rt) eqn:Ec; [|eapply IH; eassumption].
+        destruct (rec (fr_sels fr) (name :: v, g)) as [[v1 g1]|] eqn:Er; [|discriminate].
+        eapply IH; [exact Hsub' | | exact H].
+        eapply Hrec; [|exact Hg|exact Er].
+        intros k f Hr. apply Hsub. eapply r_spread; [left; reflexivity | exact Ef | exact Ec | exact Hr].
+      + destruct (should_include cv dirs && match tc with Some c => cond_matches s c rt | None => true end) eqn:Ec;
+          [|eapply IH; eassumption].
+        apply andb_true_iff in Ec. destruct Ec as [_ Ec].
+        destruct (rec sub (v, g)) as [[v1 g1]|] eqn:Er; [|discriminate].
+        eapply IH; [exact Hsub' | | exact H].
+        eapply Hrec; [|exact Hg|exact Er].
+        intros k f Hr. apply Hsub. eapply r_inline; [left; reflexivity | exact Ec | exact Hr].
+  Qed.
+
+  Lemma collect_gen_reach fuel : forall cur v g v' g', sub_reach cur -> greach g ->
+    collect s frags cv rt fuel cur (v, g) = Some (v', g') -> greach g'.
+  Proof.
+    induction fuel as [|f IH]; intros cur v g v' g' Hsub Hg H; [discriminate|].
+    unfold collect in H. cbn [collect_gen] in H. eapply collect_list_reach; try eassumption.
+  Qed.
+End CollectReach.
+
+Lemma collect_reach s frags cv rt fuel sels v g :
+  collect s frags cv rt fuel sels ([], []) = Some (v, g) ->
+  forall k fs f, In (k, fs) g -> In f fs -> reach s frags rt sels k f.
+Proof.
+  intros H k fs f H1 H2.
+  eapply (collect_gen_reach s frags cv rt sels fuel sels [] [] v g); try exact H.
+  - intros k0 f0 Hr. exact Hr.
+  - intros k0 f0 [fs0 [[] _]].
+  - exists fs. split; assumption.
+Qed.
+
+(* ------------------------------------------------------------------ conformance, inverted *)
+
+Section Conf.
+  Variable s : schema.
+
+  Definition obj_conf (rt : str) (obj : list (str * data)) : Prop :=
+    forall name fd, lookup_field s rt name = Some fd ->
+      conforms s (match lookup name obj with Some d => d | None => DNull end) (f_type fd) = true.
+
+  Lemma conforms_nonnull_inv d t' :
+    d <> DNull -> conforms s d (TNonNull t') = true -> conforms s d t' = true.
+  Proof.
+    intros Hd H. destruct d; [congruence| | | |discriminate H];
+      destruct t'; first [exact H | cbn in H; discriminate H].
+  Qed.
+
+  Lemma conforms_list_inv items it :
+    conforms s (DList items) (TList it) = true -> Forall (fun x => conforms s x it = true) items.
+  Proof. cbn [conforms]. intro H. apply Forall_forall. apply forallb_forall. exact H. Qed.
+
+  Lemma lookup_field_object rt name fd :
+    is_object s rt = true -> lookup_field s rt name = Some fd ->
+    In fd (fields_of s rt) /\ f_name fd = name.
+  Proof.
+    unfold is_object, lookup_field, fields_of.
+    destruct (lookup_type s rt) as [[| |fs ifs| |]|]; try discriminate.
+    intros _ H. apply find_field_In. exact H.
+  Qed.
+
+  Lemma conforms_obj_inv tn flds n :
+    conforms s (DObj tn flds) (TNamed n) = true ->
+    exists rt, ((is_object s n = true /\ rt = n) \/
+                (is_object s n = false /\ is_object s tn = true /\ possible s n tn = true /\ rt = tn)) /\
+               is_object s rt = true /\ obj_conf rt flds.
+  Proof.
+    cbn [conforms].
+    set (rto := if is_object s n then Some n
+                else if is_object s tn && possible s n tn then Some tn else None).
+    destruct rto as [rt|] eqn:Ert; [|discriminate]. intro H.
+    apply andb_true_iff in H. destruct H as [H1 H2].
+    assert (Hrt : ((is_object s n = true /\ rt = n) \/
+                   (is_object s n = false /\ is_object s tn = true /\ possible s n tn = true /\ rt = tn))
+                  /\ is_object s rt = true).
+    { subst rto. destruct (is_object s n) eqn:E1.
+      - inversion Ert; subst. split; [left; split; reflexivity | exact E1].
+      - destruct (is_object s tn && possible s n tn) eqn:E2; [|discriminate].
+        inversion Ert; subst. apply andb_true_iff in E2. destruct E2 as [E2 E3].
+        split; [right; repeat split; assumption | exact E2]. }
+    destruct Hrt as [Hrt Hobj]. exists rt. split; [exact Hrt|]. split; [exact Hobj|].
+    intros name fd Hl. destruct (lookup name flds) as [d|] eqn:El.
+    - apply lookup_In in El. rewrite forallb_forall in H1. specialize (H1 _ El). cbn in H1.
+      rewrite Hl in H1. exact H1.
+    - destruct (lookup_field_object rt name fd Hobj Hl) as [Hin Hn].
+      rewrite forallb_forall in H2. specialize (H2 _ Hin). unfold has_key in H2. rewrite Hn, El in H2.
+      cbn in H2. cbn [conforms]. exact H2.
+  Qed.
+
+  Lemma complete_leaf_nonnull td l j : complete_leaf td l = Some j -> j <> JNull.
+  Proof.
+    destruct td as [[]|vals| | |]; destruct l; cbn; try discriminate;
+      intro H; try (inversion H; subst; discriminate).
+    - destruct (in_int_range z); inversion H; subst; discriminate.
+    - destruct (mem s0 vals); inversion H; subst; discriminate.
+  Qed.
+
+  (* argument defaults of a valid schema coerce *)
+  Lemma schema_defaults rt name fd :
+    schema_ok s = true -> lookup_field s rt name = Some fd ->
+    forall ad lit, In ad (f_args fd) -> a_default ad = Some lit -> coerce_lit s [] lit (a_type ad) <> None.
+  Proof.
+    intros Hs Hl ad lit Hin Hd.
+    assert (Hfs : exists fs, fields_defaults_ok s fs = true /\ In fd fs).
+    { unfold lookup_field, lookup_type in Hl.
+      destruct (scalar_of_name rt); [discriminate|].
+      destruct (lookup rt (s_types s)) as [td|] eqn:El; [|discriminate].
+      apply lookup_In in El. unfold schema_ok in Hs. rewrite forallb_forall in Hs.
+      specialize (Hs _ El). cbn in Hs.
+      destruct td as [| |fs ifs|fs|]; try discriminate;
+        exists fs; (split; [exact Hs | apply find_field_In in Hl; apply Hl]). }
+    destruct Hfs as [fs [Hok Hfd]]. unfold fields_defaults_ok in Hok.
+    rewrite forallb_forall in Hok. specialize (Hok _ Hfd). rewrite forallb_forall in Hok.
+    specialize (Hok _ Hin). rewrite Hd in Hok.
+    destruct (coerce_lit s [] lit (a_type ad)); [discriminate | discriminate Hok].
+  Qed.
+End Conf.
+
+(* ------------------------------------------------------------------ well-typed execution over conforming data *)
+
+Section ExecSound.
+  Variable s : schema.
+  Variable frags : list fragment.
+  Variable vdefs : list var_def.
+  Variable cv : list (str * value).
+  Hypothesis Hschema : schema_ok s = true.
+  Hypothesis Hcv : cv_ok vdefs cv.
+
+  Let nulls := nulls_of vdefs cv.
+  Let styped := set_typed s frags vdefs nulls.
+
+  (* a value, no errors *)
+  Definition clean (P : json -> Prop) (o : out) : Prop :=
+    exists j cs, o = (CVal j, [], cs) /\ P j.
+
+  Definition sub_ok (t : ty) (sels : list selection) : Prop :=
+    forall rt', runtime_of_b s (named_of t) rt' = true -> styped rt' sels.
+
+  Lemma exec_groups_clean ef : forall g r es cs,
+    (forall k fs o, In (k, fs) g -> ef fs = Some (FRes o) -> clean (fun _ => True) o) ->
+    exec_groups ef g = Some (r, es, cs) -> (exists kvs, r = Some kvs) /\ es = [].
+  Proof.
+    induction g as [|[k fs] rest IH]; intros r es cs Hf H; cbn [exec_groups] in H.
+    - inversion H; subst. split; [eexists; reflexivity | reflexivity].
+    - destruct (ef fs) as [[|o]|] eqn:Ef; [| |discriminate].
+      + eapply IH; [|exact H]. intros k' fs' o' Hin. apply (Hf k'). right. exact Hin.
+      + destruct (Hf k fs o (or_introl eq_refl) Ef) as [j [cs0 [-> _]]].
+        destruct (exec_groups ef rest) as [[[r' es'] cs']|] eqn:Er; [|discriminate].
+        destruct (IH r' es' cs' (fun k' fs' o' Hin => Hf k' fs' o' (or_intror Hin)) eq_refl) as [[kvs ->] ->].
+        inversion H; subst; clear H.
+        split; [eexists; reflexivity | reflexivity].
+  Qed.
+
+  Lemma complete_items_clean cf : forall items i r es cs,
+    (forall x o, In x items -> cf x = Some o -> clean (fun _ => True) o) ->
+    complete_items cf items i = Some (r, es, cs) -> (exists js, r = Some js) /\ es = [].
+  Proof.
+    induction items as [|x rest IH]; intros i r es cs Hf H; cbn [complete_items] in H.
+    - inversion H; subst. split; [eexists; reflexivity | reflexivity].
+    - destruct (cf x) as [o|] eqn:Ex; [|discriminate].
+      destruct (Hf x o (or_introl eq_refl) Ex) as [j [cs0 [-> _]]].
+      destruct (complete_items cf rest (S i)) as [[[r' es'] cs']|] eqn:Er; [|discriminate].
+      destruct (IH (S i) r' es' cs' (fun y o' Hin => Hf y o' (or_intror Hin)) Er) as [[js ->] ->].
+      inversion H; subst; clear H.
+      split; [eexists; reflexivity | reflexivity].
+  Qed.
+
+  Lemma runtime_self n : is_object s n = true -> runtime_of_b s n n = true.
+  Proof. intro H. unfold runtime_of_b. rewrite H, str_eqb_refl. reflexivity. Qed.
+
+  Theorem exec_sound : forall fuel,
+    (forall rt obj sels o, is_object s rt = true -> styped rt sels -> obj_conf s rt obj ->
+        exec_sels s frags cv fuel rt obj sels = Some o -> clean (fun j => j <> JNull) o) /\
+    (forall rt obj top k fs o, is_object s rt = true -> styped rt top ->
+        (forall f, In f fs -> reach s frags rt top k f) -> obj_conf s rt obj ->
+        exec_field s frags cv fuel rt obj fs = Some (FRes o) -> clean (fun _ => True) o) /\
+    (forall t sels d o, sub_ok t sels -> conforms s d t = true ->
+        complete s frags cv fuel t sels d = Some o -> clean (fun j => d <> DNull -> j <> JNull) o).
+  Proof.
+    induction fuel as [|f [IHs [IHf IHc]]].
+    { repeat split; intros; discriminate. }
+    repeat split.
+    - (* exec_sels *)
+      intros rt obj sels o Hobj Hty Hconf H. rewrite exec_sels_S in H.
+      destruct (collect s frags cv rt f sels ([], [])) as [[v g]|] eqn:Ec; [|discriminate].
+      destruct (exec_groups (exec_field s frags cv f rt obj) g) as [[[r es] cs]|] eqn:Eg; [|discriminate].
+      destruct (exec_groups_clean (exec_field s frags cv f rt obj) g r es cs) as [[kvs ->] ->]; [|exact Eg|].
+      { intros k fs o' Hin Hf. eapply (IHf rt obj sels k fs o' Hobj Hty); [|exact Hconf|exact Hf].
+        intros f0 Hf0. eapply collect_reach; eassumption. }
+      inversion H; subst. exists (JObj kvs), cs. split; [reflexivity | discriminate].
+    - (* exec_field *)
+      intros rt obj top k fs o Hobj Hty Hreach Hconf H. rewrite exec_field_S in H.
+      destruct fs as [|f1 fs']; [discriminate|].
+      destruct (str_eqb (fs_name f1) n_typename) eqn:Et.
+      { inversion H; subst. eexists _, _. split; [reflexivity | exact I]. }
+      inversion Hty as [rt0 top0 T1 T2 T3]; subst.
+      pose proof (T1 k f1 (Hreach f1 (or_introl eq_refl))) as Hf1. unfold field_ok in Hf1.
+      rewrite Et in Hf1.
+      destruct (lookup_field s rt (fs_name f1)) as [fd|] eqn:El; [|discriminate].
+      apply andb_true_iff in Hf1. destruct Hf1 as [Hargs _].
+      unfold args_ok in Hargs. apply andb_true_iff in Hargs. destruct Hargs as [_ Hargs].
+      destruct (args_sound s vdefs cv Hcv (f_args fd) (fs_args f1)
+                  (schema_defaults s rt (fs_name f1) fd Hschema El) Hargs) as [args Ha].
+      rewrite Ha in H.
+      destruct (complete s frags cv f (f_type fd) (merged_sels (f1 :: fs'))
+                  match lookup (fs_name f1) obj with Some d => d | None => DNull end)
+        as [[[r es] cs]|] eqn:Ecp; [|discriminate].
+      assert (Hsub : sub_ok (f_type fd) (merged_sels (f1 :: fs'))).
+      { intros rt' Hrt'. eapply (T3 k (f1 :: fs') f1 fd rt'); try eassumption. left. reflexivity. }
+      destruct (IHc _ _ _ _ Hsub (Hconf _ _ El) Ecp) as [j [cs0 [Heq _]]].
+      inversion Heq; subst. inversion H; subst. cbn [catch]. eexists _, _. split; [reflexivity | exact I].
+    - (* complete *)
+      intros t sels d o Hsub Hc H. rewrite complete_S in H.
+      assert (HN : forall t', t = TNonNull t' -> d <> DNull ->
+                match complete s frags cv f t' sels d with
+                | None => None
+                | Some (CVal JNull, es, cs) => Some (CErr, es ++ [[]], cs)
+                | Some o => Some o
+                end = Some o -> clean (fun j => d <> DNull -> j <> JNull) o).
+      { intros t' -> Hd HH.
+        destruct (complete s frags cv f t' sels d) as [o'|] eqn:Ecp; [|discriminate].
+        assert (Hsub' : sub_ok t' sels) by exact Hsub.
+        destruct (IHc _ _ _ _ Hsub' (conforms_nonnull_inv s d t' Hd Hc) Ecp) as [j [cs0 [-> Hj]]].
+        specialize (Hj Hd). destruct j; try congruence; inversion HH; subst;
+          eexists _, _; (split; [reflexivity | intros _; discriminate]). }
+      destruct d as [|l|tn flds|items|]; [| | | |discriminate Hc].
+      + (* DNull *)
+        destruct t as [n|it|t']; [| |discriminate Hc];
+          inversion H; subst; eexists _, _; (split; [reflexivity | congruence]).
+      + (* DLeaf *)
+        destruct t as [n|it|t']; [|discriminate Hc | eapply HN; [reflexivity | discriminate | exact H]].
+        cbn [conforms] in Hc. destruct (lookup_type s n) as [td|] eqn:El; [|discriminate].
+        apply andb_true_iff in Hc. destruct Hc as [Hleaf Hcl].
+        destruct (complete_leaf td l) as [j|] eqn:Ecl; [|discriminate].
+        destruct td as [sc|vals| | |]; try discriminate;
+          inversion H; subst; eexists _, _;
+            (split; [reflexivity | intros _; eapply complete_leaf_nonnull; exact Ecl]).
+      + (* DObj *)
+        destruct t as [n|it|t']; [|discriminate Hc | eapply HN; [reflexivity | discriminate | exact H]].
+        destruct (conforms_obj_inv s tn flds n Hc) as [rt [Hrt [Hobj Hoc]]].
+        assert (Hgo : forall o', exec_sels s frags cv f rt flds sels = Some o' ->
+                                 clean (fun j => DObj tn flds <> DNull -> j <> JNull) o').
+        { intros o' He. assert (Hst : styped rt sels).
+          { apply Hsub. cbn [named_of]. destruct Hrt as [[Ho ->]|[Hn [Ho [Hp ->]]]].
+            - apply runtime_self. exact Ho.
+            - unfold runtime_of_b. rewrite Ho, Hp. apply orb_true_r. }
+          destruct (IHs _ _ _ _ Hobj Hst Hoc He) as [j [cs0 [-> Hj]]].
+          eexists _, _. split; [reflexivity | intros _; exact Hj]. }
+        destruct Hrt as [[Ho ->]|[Hn [Ho [Hp ->]]]].
+        * unfold is_object in Ho. destruct (lookup_type s n) as [[| |ofs ifs| |]|]; try discriminate.
+          apply Hgo. exact H.
+        * unfold is_object in Hn. unfold possible in Hp.
+          destruct (lookup_type s n) as [[| |ofs ifs|ifs|ms]|] eqn:El; try discriminate.
+          -- fold (is_object s tn) in H. unfold possible in H. rewrite El in H.
+             rewrite Ho in H. cbn [andb] in H. rewrite Hp in H. apply Hgo. exact H.
+          -- fold (is_object s tn) in H. unfold possible in H. rewrite El in H.
+             rewrite Ho in H. cbn [andb] in H. rewrite Hp in H. apply Hgo. exact H.
+      + (* DList *)
+        destruct t as [n|it|t']; [discriminate Hc | | eapply HN; [reflexivity | discriminate | exact H]].
+        destruct (complete_items (fun x => option_map (catch it) (complete s frags cv f it sels x)) items O)
+          as [[[r es] cs]|] eqn:Ei; [|discriminate].
+        destruct (complete_items_clean (fun x => option_map (catch it) (complete s frags cv f it sels x)) items O r es cs) as [[js ->] ->]; [|exact Ei|].
+        { intros x o' Hin Hx. destruct (complete s frags cv f it sels x) as [o0|] eqn:E0; [|discriminate].
+          cbn in Hx. inversion Hx; subst.
+          pose proof (conforms_list_inv s items it Hc) as Hall. rewrite Forall_forall in Hall.
+          assert (Hsub' : sub_ok it sels) by exact Hsub.
+          destruct (IHc _ _ _ _ Hsub' (Hall x Hin) E0) as [j [cs0 [-> _]]].
+          cbn [catch]. eexists _, _. split; [reflexivity | exact I]. }
+        inversion H; subst. eexists _, _. split; [reflexivity | intros _; discriminate].
+  Qed.
+End ExecSound.
